@@ -353,6 +353,11 @@ void QXmppOutgoingClient::_q_socketDisconnected()
     if (d->nextAddressState == QXmppOutgoingClientPrivate::TryNext) {
         d->connectToNextAddress();
     } else if (d->redirect) {
+        // a redirect received on an established session ends that session: the next one is
+        // announced when the negotiation with the new host has succeeded
+        if (d->sessionStarted) {
+            closeSession();
+        }
         d->connectToHost({ ServerAddress::Tcp, d->redirect->host, d->redirect->port });
         d->redirect.reset();
     } else {
